@@ -19,7 +19,8 @@ Definition bt_szx (b : bt) : Z := snd b.
 Record request := { rq_block1 : option bt; rq_block2 : option bt; rq_size1 : option Z; rq_payload : list Z }.
 Record response := { rs_code : Z; rs_block1 : option bt; rs_block2 : option bt; rs_etag : option Z;
                      rs_payload : list Z;
-                     rs_maxexp : Z   (* response.remote.maximum_block_size_exp *) }.
+                     rs_maxexp : Z;  (* response.remote.maximum_block_size_exp *)
+                     rs_observe : bool (* truth value of response.opt.observe: present and non-zero *) }.
 (* a sub-request either gets a response or fails with a transport-level exception *)
 Inductive sresult := SResp (r : response) | SFail.
 Inductive outcome := Done (r : response) | Err (e : exn) | Fuel.
@@ -67,6 +68,7 @@ Definition block1_react (rq : request) (resp : response) (block_cursor size_exp 
         let '(cursor2, size_exp2) := reduce_size (Z.to_nat (size_exp - bt_szx block1)) (bt_szx block1) cursor1 size_exp in
         if negb (bt_more cb) then                                            (* 967-975 *)
           if bt_more block1 || (rs_code resp =? CONTINUE) then B1Err UnexpectedBlock1Option else B1Break
+        else if rs_observe resp then B1Err AttributeError                    (* 979-986: `blockrequest.observe.cancel()` — a Request has no attribute `observe` *)
         else if bt_more block1 then B1Continue cursor2 size_exp2             (* 988-992 *)
         else if negb (is_successful (rs_code resp)) then B1Break             (* 994-995 *)
         else B1Continue cursor2 size_exp2                                    (* 996-998 *)
@@ -101,13 +103,13 @@ Definition append_response_block (assembled next_block : response) : M response 
     if negb (etag_eqb (rs_etag next_block) (rs_etag assembled)) then Raise ResourceChanged else
     Ok {| rs_code := rs_code assembled; rs_block1 := rs_block1 assembled; rs_block2 := Some (n, m, szx);
           rs_etag := rs_etag assembled; rs_payload := rs_payload assembled ++ rs_payload next_block;
-          rs_maxexp := rs_maxexp assembled |}
+          rs_maxexp := rs_maxexp assembled; rs_observe := rs_observe assembled |}
   end.
 
 Definition clear_block1 (r : response) : response :=
-  {| rs_code := rs_code r; rs_block1 := None; rs_block2 := rs_block2 r; rs_etag := rs_etag r; rs_payload := rs_payload r; rs_maxexp := rs_maxexp r |}.
+  {| rs_code := rs_code r; rs_block1 := None; rs_block2 := rs_block2 r; rs_etag := rs_etag r; rs_payload := rs_payload r; rs_maxexp := rs_maxexp r; rs_observe := rs_observe r |}.
 Definition clear_block2 (r : response) : response :=
-  {| rs_code := rs_code r; rs_block1 := rs_block1 r; rs_block2 := None; rs_etag := rs_etag r; rs_payload := rs_payload r; rs_maxexp := rs_maxexp r |}.
+  {| rs_code := rs_code r; rs_block1 := rs_block1 r; rs_block2 := None; rs_etag := rs_etag r; rs_payload := rs_payload r; rs_maxexp := rs_maxexp r; rs_observe := rs_observe r |}.
 
 Section Client.
   Context {S : Type}.
